@@ -240,6 +240,18 @@ fn impl_lists(c: &ControlPoints) -> Lists {
 
 // ------------------------------------------------------------------- case
 
+/// `Out` keeps at most 200 failures: record only the first few instances of
+/// the known finding so that they cannot crowd out an unlisted one
+fn report(out: &mut Out, class: &str, input: &str, detail: &str) {
+    if class == "D8" {
+        out.count("oracle.D8_instances");
+        if out.dist.get("oracle.D8_instances").copied().unwrap_or(0) > 12 {
+            return;
+        }
+    }
+    out.fail(class, input, detail);
+}
+
 /// a generated line: its text and, when the generator built it from field
 /// values, the record it must parse to (`Some(None)` = must be rejected)
 #[derive(Clone)]
@@ -342,7 +354,7 @@ pub fn run_case(mode: i32, bank: i32, vol: i32, lines: &[GenLine], stream: &str,
             && recs.iter().any(|r| r.time == 0.0 && r.time.is_sign_positive());
         let want_total = reference(mode, &recs, total_key);
         let cls = if mixed && got == want_total { "D8" } else { "" };
-        out.fail(cls, &desc, &format!("control points differ from the legacy model: got {:?}, legacy {:?}", got, want));
+        report(out, cls, &desc, &format!("control points differ from the legacy model: got {:?}, legacy {:?}", got, want));
     }
     // 3. order and clamps on the implementation's result
     out.oracle_checks += 1;
@@ -355,7 +367,7 @@ pub fn run_case(mode: i32, bank: i32, vol: i32, lines: &[GenLine], stream: &str,
             out.fail("", &desc, &format!("{nm} list not strictly increasing (total order): {l:?}"));
         } else if !l.windows(2).all(|w| w[0] < w[1]) {
             let only_zero = l.windows(2).all(|w| w[0] < w[1] || (w[0] == 0.0 && w[1] == 0.0));
-            out.fail(if only_zero { "D8" } else { "" }, &desc, &format!("{nm} list has two points at numerically equal time: {l:?}"));
+            report(out, if only_zero { "D8" } else { "" }, &desc, &format!("{nm} list has two points at numerically equal time: {l:?}"));
         }
     }
     for p in &c.timing_points {
@@ -590,7 +602,7 @@ const ALPHABET: [&str; 16] = [
     "0,500,4,1,0,100,0,0",
 ];
 
-pub const RULE: &str = "sequences of [TimingPoints] lines through TimingPoints::parse_timing_points + From<TimingPointsState>, in all four modes: exhaustive over a 16-line alphabet (times 0, 0+, 10, 20, -5; timing/inherited; beat lengths -50, 0, 3, 500, 1e9, NaN, -1e9; kiai/omit; two banks; two volumes) up to a bounded length, random long sequences drawing every field independently with trailing fields cut at every position, and a separate malformed stream (padded, comment-suffixed, hostile numerics); non-trivial = at least 2 accepted lines and at least 2 stored points; distinct = distinct case lines";
+pub const RULE: &str = "sequences of [TimingPoints] lines through TimingPoints::parse_timing_points + From<TimingPointsState>, in all four modes: exhaustive over a 16-line alphabet (times 0, 0+, 10, 20, -5; timing/inherited; beat lengths -50, 0, 3, 500, 1e9, NaN, -1e9; kiai/omit; two banks; two volumes) up to length 3 (quick) / 4 (thorough; plus 8-line and 4-line sub-alphabets to length 5 and 7), random long sequences drawing every field independently with trailing fields cut at every position, and a separate malformed stream (padded, comment-suffixed, hostile numerics); non-trivial = at least 2 accepted lines and at least 2 stored points; distinct = distinct case lines";
 
 pub fn generate(tier: &str, seed: u64, out: &mut Out) {
     let mut r = Rng::new(seed ^ 0xC12);
@@ -619,6 +631,24 @@ pub fn generate(tier: &str, seed: u64, out: &mut Out) {
                     continue;
                 }
                 run_case(mode, 1, 100, &lines, "exhaustive", out);
+            }
+        }
+    }
+    // thorough: longer sequences over sub-alphabets (8 lines to length 5,
+    // 4 lines to length 7), all four modes
+    if tier == "thorough" {
+        for (sub, len) in [(&[0usize, 1, 2, 3, 4, 5, 6, 10][..], 5usize), (&[0, 1, 3, 5][..], 6), (&[0, 1, 3, 5][..], 7)] {
+            let total = sub.len().pow(len as u32);
+            for idx0 in 0..total {
+                let mut idx = idx0;
+                let mut lines = vec![];
+                for _ in 0..len {
+                    lines.push(alpha[sub[idx % sub.len()]].clone());
+                    idx /= sub.len();
+                }
+                for mode in 0..4 {
+                    run_case(mode, 1, 100, &lines, "exhaustive-sub", out);
+                }
             }
         }
     }
